@@ -531,14 +531,14 @@ void generate(sim::Rng& g, const std::string& prop, const std::string& tier, Jso
         unsub_pool.push_back(nobs++);
         init.push(op);
     }
-    int nt = g.range(2, thorough ? 4 : 3);
+    int nt = g.range(2, thorough ? 6 : 5);   // up to 5 (6) threads so that the lock's queue can hold writer, reader, writer, reader behind a holder
     bool two_routers = g.below(4) == 0;
     program.set("two_routers", (int)two_routers);
     Json threads = Json::array();
     int total = 0;
     for (int t = 0; t < nt; t++) {
         Json ops = Json::array();
-        int n = g.range(1, thorough ? 4 : 3);
+        int n = g.range(1, nt >= 4 ? 2 : (thorough ? 4 : 3));
         std::vector<int> own;
         for (int i = 0; i < n; i++) {
             Json op = Json::object();
